@@ -111,13 +111,16 @@ def run(tier, seed, t0):
             distinct.add((r['type'], r['input'], r['mode']))
             if not r['agree']:
                 disagreements.append({'what': '%s %s on %s: impl %s, model %s [%s]' % (r['mode'], r['type'], r['input'], impl, r['model'], cfg)})
-            if impl != 'err InvalidData Zst':
+            # the property: refused with an InvalidData error before any length is TRUSTED.  Reading the four bytes of
+            # the length prefix and then refusing (or failing on their absence) trusts nothing; which InvalidData message
+            # comes back, and whether the prefix was read first, is pinned by the model comparison above, not here
+            if not impl.startswith('err InvalidData'):
                 failures.append({'class': 'zst-accepted', 'key': r['type'],
-                                 'what': 'decoding a collection of zero-sized elements was not refused up front: %s %s on "%s" -> %s [%s]' % (r['mode'], r['type'], r['input'], impl, cfg),
+                                 'what': 'decoding a collection of zero-sized elements was not refused with InvalidData: %s %s on "%s" -> %s [%s]' % (r['mode'], r['type'], r['input'], impl, cfg),
                                  'type': r['type'], 'mode': r['mode'], 'input': r['input'], 'result': impl, 'cfg': cfg})
-            if r['pulled'] not in (None, 0):
+            if r['pulled'] not in (None, 0) and int(r['pulled']) > 4:
                 failures.append({'class': 'zst-read-first', 'key': r['type'],
-                                 'what': 'bytes were pulled from the reader before the ZST refusal: %s %s [%s]' % (r['mode'], r['type'], cfg)})
+                                 'what': 'more than the length prefix (%s bytes) was pulled from the reader before the ZST refusal: %s %s [%s]' % (r['pulled'], r['mode'], r['type'], cfg)})
         # (3) usable neighbours: arrays / tuples / options / wrappers of ZSTs round trip
         usable = [(tid, t) for tid, t in tmap.items() if flt(t) and can_de(t) and any(mem_zst(s) for s in subterms(t))
                   and not any(s[0] == 'seq' and s[1] in GUARDED and mem_zst(s[2][2][0] if s[1] in MAP_KINDS else s[2]) for s in subterms(t))]
